@@ -21,6 +21,7 @@ var addrs = []string{"a1", "a2", "a3", "a4"}
 var nodes = []string{"n1", "n2"}
 
 type env struct {
+	n    int // call counter: picks the representation of an address per call
 	udp  map[string]*net.UDPAddr
 	node map[string]base.Address
 	pub  base.Publickey
@@ -44,8 +45,20 @@ func newEnv() *env {
 	return e
 }
 
+// addr returns one of the equivalent in-memory representations of the model address
+// (net.IPv4 gives the 16-byte form, To4 the 4-byte form; same IP.Equal, same String):
+// the table must treat them as the same member address.
+func (e *env) addr(a string) *net.UDPAddr {
+	e.n++
+	u := e.udp[a]
+	if e.n%2 == 0 {
+		return &net.UDPAddr{IP: u.IP.To4(), Port: u.Port}
+	}
+	return &net.UDPAddr{IP: u.IP.To16(), Port: u.Port}
+}
+
 func (e *env) member(a, n string) quicmemberlist.Member {
-	m, err := quicmemberlist.NewMember(a+"@"+n, e.udp[a], e.node[n], e.pub, "1.2.3.4:4321", true)
+	m, err := quicmemberlist.NewMember(a+"@"+n, e.addr(a), e.node[n], e.pub, "1.2.3.4:4321", true)
 	if err != nil {
 		panic(err)
 	}
@@ -91,8 +104,8 @@ func (e *env) obs(p *quicmemberlist.VerifMembersPool) map[string]interface{} {
 	gf := map[string]bool{}
 	gn := map[string]string{}
 	for _, a := range addrs {
-		ex[a] = p.Exists(e.udp[a])
-		m, found := p.Get(e.udp[a])
+		ex[a] = p.Exists(e.addr(a))
+		m, found := p.Get(e.addr(a))
 		gf[a] = found
 		gn[a] = "none"
 		if found && m != nil {
@@ -105,7 +118,7 @@ func (e *env) obs(p *quicmemberlist.VerifMembersPool) map[string]interface{} {
 		ml[n] = p.MembersLen(e.node[n])
 		others[n] = map[string][3]int{}
 		for _, a := range addrs {
-			l, o, f := p.MembersLenOthers(e.node[n], e.udp[a])
+			l, o, f := p.MembersLenOthers(e.node[n], e.addr(a))
 			fi := 0
 			if f {
 				fi = 1
@@ -131,7 +144,7 @@ func (e *env) runSeq(out *h.Out, seq []op) {
 			added := p.Set(e.member(o.a, o.n))
 			out.Emit(map[string]interface{}{"a": "Join", "addr": o.a, "node": o.n, "added": added})
 		case "L":
-			removed, err := p.Remove(e.udp[o.a])
+			removed, err := p.Remove(e.addr(o.a))
 			if err != nil {
 				panic(err)
 			}
